@@ -11,14 +11,15 @@ EXTENDS CondWrite, Json, IOUtils
 
 Trace == ndJsonDeserialize(IOEnv.TRACE_FILE)
 
-VARIABLES l, pend, hw
-tvars == <<reg, hist, l, pend, hw, pc, cur, out, known, ntok, nops>>
+VARIABLES l, pend
+tvars == <<reg, hist, l, pend, pc, cur, out, known, ntok, nops>>
 
 NoPend == [st |-> "none", op |-> NoOp]
 OpOf(e) == [kind |-> e.op.kind, blob |-> e.op.blob, cond |-> e.op.cond, seen |-> e.op.seen, off |-> e.op.off]
 ResOf(e) == [err |-> e.res.err, etag |-> e.res.etag, size |-> e.res.size, content |-> e.res.content]
 
-TInit == /\ reg = Absent /\ hist = <<>> /\ l = 1 /\ hw = 1
+TInit == /\ TLCSet(7, 0)
+         /\ reg = Absent /\ hist = <<>> /\ l = 1
          /\ pend = [c \in Clients |-> NoPend]
          /\ pc = [c \in Clients |-> "idle"] /\ cur = [c \in Clients |-> NoOp]
          /\ out = [c \in Clients |-> NoRes] /\ known = [c \in Clients |-> ""] /\ ntok = 1 /\ nops = 0
@@ -69,7 +70,6 @@ TFinal == /\ Trace[l].t = "final"
           /\ l' = l + 1 /\ UNCHANGED <<reg, hist, pend>> /\ Frame
 
 TNext == /\ l <= Len(Trace)
-         /\ hw' = IF l' > hw THEN l' ELSE hw
          /\ (TReset \/ TInvoke \/ TReturn \/ TFinal \/ \E c \in Clients : TLin(c))
 
 \* the trace is accepted as soon as one path consumed every line: reaching that state
